@@ -15,9 +15,12 @@ ASSUMPTIONS = c01.ASSUMPTIONS
 def mutate_ast(rng, prog):
     p = copy.deepcopy(prog)
     body = p["body"]
-    kind = rng.choice(["del", "dup", "swap", "num", "name", "defname", "defname", "star", "sym", "domain", "strands", "len", "wild"])
+    kind = rng.choice(["del", "dup", "swap", "num", "name", "defname", "defname", "star", "sym", "domain", "strands", "len", "wild", "plus"])
     if not body: return p, "none"
     i = rng.randrange(len(body))
+    if kind in ("sym", "domain", "strands", "plus"):       # mutations of a structure statement: pick one (when there is one)
+        cands = [k for k, o in enumerate(body) if o[0] == "struct" and (kind != "plus" or o[5][0] == "ext")]
+        if cands: i = rng.choice(cands)
     st = body[i]
     def items_of(st): return st[2] if st[0] == "seq" else st[3] if st[0] == "strand" else None
     if kind == "del": del body[i]
@@ -60,6 +63,13 @@ def mutate_ast(rng, prog):
         elif st[5][0] == "hu" and st[5][1]:
             t = rng.choice(st[5][1])
             if t[0] in ("U", "H"): t[1] = max(0, t[1] + rng.choice([-1, 1, 3]))
+    elif kind == "plus" and st[0] == "struct" and st[5][0] == "ext":
+        # a stray strand break: leading, trailing or doubled '+' (one segment more than strands)
+        e = st[5][1]; where = rng.choice(["lead", "trail", "double"])
+        plus = [k for k, x in enumerate(e) if x[1] == "+"]
+        if where == "double" and plus: e.insert(rng.choice(plus), [1, "+"])
+        elif where == "lead": e.insert(0, [1, "+"])
+        else: e.append([1, "+"])
     elif kind == "domain" and st[0] == "struct":
         st[4] = not st[4]
     elif kind == "strands" and st[0] == "struct":
